@@ -2,7 +2,7 @@
 from analysis.runner import rule
 from analysis.cfg import cfg_of
 from analysis.facts import AnchorError
-from analysis import terms as T
+from analysis import terms as T, k2
 from analysis import chessref as R
 from analysis.effects import word_equal, sample_words, subterms, upd_entries
 
@@ -189,6 +189,14 @@ def r4(ctx):
         ctx.used_body(key)
         lv = eng.tabulate(key)
         ctx.ob(nm, len(lv) == 1 and lv[0].ret == ("adt", ITER, "BitBoardIter", (("param", 0, "self"),)), f"BitBoard::{nm} is {[T.show(l.ret)[:80] for l in lv]}", site=P.body(key).get("def_span"))
+
+
+@rule("C18.R8", "BitBoardIter overrides no Iterator method beyond the audited next / size_hint / nth")
+def r8(ctx):
+    """`last`, `fold`, `count`, `min`, `max`, ... are provided through `next`; an override (an O(1) 'fast path') is a second implementation of
+    iteration that none of the rules above reads."""
+    new = k2.unaudited_overrides(ctx.P, ["chess_bitboard::BitBoardIter"])
+    ctx.ob("no unaudited Iterator override", not new, f"BitBoardIter now overrides {new}: nothing establishes that it agrees with next()", sample={"audited": ["next", "size_hint", "nth"]})
 
 
 @rule("C18.R5", "BMI2 nth: selects the n-th member, removes everything up to it, drains past the end")
